@@ -82,15 +82,16 @@ class Side:
         return ("m_doc", self.cfgname, enc(s))
 
 
-def inline_text(rng):
+def inline_text(rng, toks=None):
     n = rng.randint(0, 10)
     parts = []
+    toks = toks or gen.INLINE_TOKS
     for _ in range(n):
         r = rng.random()
         if r < 0.4:
             parts.append(rng.choice(gen.WORDS) + rng.choice([" ", " ", ""]))
         elif r < 0.9:
-            parts.append(rng.choice(gen.INLINE_TOKS))
+            parts.append(rng.choice(toks))
         else:
             parts.append(rng.choice(["\n", "  \n", "\\\n", " \n "]))
     return "".join(parts)
@@ -99,13 +100,25 @@ def inline_text(rng):
 BLOCK_PLUGINS = ("table", "footnotes", "task_lists", "def_list", "abbr")
 
 
+INLINE_PLUGINS = ("strikethrough", "mark", "insert", "superscript", "subscript", "url", "math", "ruby", "spoiler", "speedup")
+
+
 def inputs(kind, rng, n, maxlen, plugins=()):
-    """`plugins`: block plugins of the configuration; half of the block / doc inputs then come from gen.md_plugins"""
+    """`plugins`: plugins of the configuration.  With block plugins half of the block / doc inputs come from gen.md_plugins;
+    with plugins of INLINE_PLUGINS (inline rules, block math, spoiler quotes, speedup) half of the inline inputs use gen.PLUGIN_TOKS
+    and a share of the block / doc inputs comes from gen.md_inline_plugins.  Without plugins the stream is the stock one."""
     out = []
+    inl = [p for p in plugins if p in INLINE_PLUGINS]
     plugins = [p for p in plugins if p in BLOCK_PLUGINS]
+    both = gen.INLINE_TOKS + gen.PLUGIN_TOKS
     while len(out) < n:
         if kind == "inline":
-            s = inline_text(rng)
+            if inl and rng.random() < 0.5:
+                s = inline_text(rng, both if rng.random() < 0.5 else gen.PLUGIN_TOKS)
+            else:
+                s = inline_text(rng)
+        elif inl and rng.random() < (0.5 if not plugins else 0.3):
+            s = gen.md_inline_plugins(rng)
         elif plugins and rng.random() < 0.5:
             s = gen.md_plugins(rng, plugins)
         else:
@@ -163,7 +176,7 @@ def firing_stats(side, kind, docs):
     saved = []
     for parser, core in ((md.block, BlockParser.SPECIFICATION), (md.inline, InlineParser.SPECIFICATION)):
         for name, fn in list(parser._methods.items()):
-            if name in core:
+            if name in core and not (name == "block_quote" and "spoiler" in side.plugins):      # spoiler rebinds `block_quote`
                 continue
             def wrap(m, state, _fn=fn, _name=name):
                 cnt[_name + ":called"] += 1
@@ -173,7 +186,8 @@ def firing_stats(side, kind, docs):
                 return r
             saved.append((parser, name, fn))
             parser._methods[name] = wrap
-    types = ("table", "table_row", "footnote_ref", "footnotes", "footnote_item", "task_list_item", "def_list", "def_list_head", "def_list_item", "abbr")
+    types = ("table", "table_row", "footnote_ref", "footnotes", "footnote_item", "task_list_item", "def_list", "def_list_head", "def_list_item", "abbr",
+             "strikethrough", "mark", "insert", "superscript", "subscript", "inline_math", "block_math", "ruby", "inline_spoiler", "block_spoiler")
     def walk(toks):
         for t in toks:
             if t.get("type") in types:
